@@ -44,6 +44,63 @@ type CheckCfg struct {
 	Extra       []string     `json:"extra_steps"`
 	Parts       []string     `json:"parts"`
 	ZeroStubs   []string     `json:"zero_stubs"` // functions replaced by stubs returning zero values (calls are logged)
+	Gen         *GenCfg      `json:"gen"`        // the code under check is the OUTPUT of the generator built from the repository
+}
+
+// GenCfg: build cmd/swagger from the repository's working tree, run it on a spec and check the
+// generated package (harnesses are overlaid into the generated package)
+type GenCfg struct {
+	Spec       string   `json:"spec"`        // relative to the verif root
+	Args       []string `json:"args"`        // e.g. ["generate","model"]
+	HarnessDir string   `json:"harness_dir"` // relative to the verif root; holds <package>/*.go
+}
+
+func (c CheckCfg) harnessRoot() string {
+	if c.Gen != nil && c.Gen.HarnessDir != "" {
+		return filepath.Join(verifRoot, c.Gen.HarnessDir)
+	}
+	return filepath.Join(verifRoot, "harness")
+}
+
+var goEnv = []string{"GOFLAGS=-mod=mod", "GOPROXY=off", "GOSUMDB=off", "GOTOOLCHAIN=local"}
+
+// prepareGen builds the generator from repo, generates code from the configured spec into a fresh
+// module under buildDir and returns that module's root
+func prepareGen(cfg CheckCfg, repo, buildDir string) (string, error) {
+	bin := filepath.Join(buildDir, "swagger.bin")
+	cmd := exec.Command("go", "build", "-o", bin, "./cmd/swagger")
+	cmd.Dir = repo
+	cmd.Env = append(os.Environ(), goEnv...)
+	if out, err := cmd.CombinedOutput(); err != nil {
+		return "", fmt.Errorf("building cmd/swagger: %v\n%s", err, out)
+	}
+	gen := filepath.Join(buildDir, "gen")
+	os.RemoveAll(gen)
+	if err := os.MkdirAll(gen, 0o755); err != nil {
+		return "", err
+	}
+	mod, err := os.ReadFile(filepath.Join(repo, "go.mod"))
+	if err != nil {
+		return "", err
+	}
+	ms := string(mod)
+	i := strings.Index(ms, "require")
+	if i < 0 {
+		return "", fmt.Errorf("no require block in go.mod")
+	}
+	os.WriteFile(filepath.Join(gen, "go.mod"), []byte("module verifgen\n\ngo 1.23\n\n"+ms[i:]), 0o644)
+	if sum, err := os.ReadFile(filepath.Join(repo, "go.sum")); err == nil {
+		os.WriteFile(filepath.Join(gen, "go.sum"), sum, 0o644)
+	}
+	args := append([]string{}, cfg.Gen.Args...)
+	args = append(args, "-q", "-f", filepath.Join(verifRoot, cfg.Gen.Spec), "-t", gen)
+	c2 := exec.Command(bin, args...)
+	c2.Dir = gen
+	c2.Env = append(os.Environ(), goEnv...)
+	if out, err := c2.CombinedOutput(); err != nil {
+		return "", fmt.Errorf("generator failed: %v\n%s", err, out)
+	}
+	return gen, nil
 }
 
 type KnownFinding struct {
@@ -240,7 +297,17 @@ func runOne(name string, cfg CheckCfg, tier, repo, only string, workers int, noN
 	id := cfg.Property
 	buildDir := filepath.Join(verifRoot, ".build", name)
 	os.MkdirAll(buildDir, 0o755)
-	ov, repl, err := prepareOverlay(repo, cfg.Package, buildDir)
+	srcRepo := repo
+	if cfg.Gen != nil {
+		g, err := prepareGen(cfg, repo, buildDir)
+		if err != nil {
+			fmt.Fprintln(os.Stderr, "gen:", err)
+			writeEvidence(name, id, tier, seed, cfg, nil, nil, time.Since(start), "generation-failed: "+err.Error(), 0, 0)
+			return 2
+		}
+		repo = g
+	}
+	ov, repl, err := prepareOverlay(cfg.harnessRoot(), repo, cfg.Package, buildDir)
 	if err != nil {
 		fmt.Fprintln(os.Stderr, "overlay:", err)
 		return 2
@@ -477,7 +544,7 @@ func runOne(name string, cfg CheckCfg, tier, repo, only string, workers int, noN
 				reproduced := (c.f.Kind == "assert" && r.Outcome == "assert") || (c.f.Kind == "panic" && r.Outcome == "panic")
 				if reproduced {
 					violations++
-					p := writeReplay(id, c.rid, c.h, c.f, c.params, r, repo)
+					p := writeReplay(id, name, c.rid, c.h, c.f, c.params, r, srcRepo)
 					replayPaths = append(replayPaths, p)
 					fmt.Printf("VIOLATION property=%s replay=%s\n", id, p)
 					fmt.Fprintf(os.Stderr, "   %s: %s\n      inputs: %s\n      observed: %s\n", c.h, c.f.Msg, strings.Join(c.f.Named, " "), strings.Join(r.Observes, " "))
@@ -629,8 +696,8 @@ func modulePath(repo string) string {
 	return ""
 }
 
-func prepareOverlay(repo, pkgPath, buildDir string) (map[string][]byte, map[string]string, error) {
-	ov, repl, err := buildOverlay(repo, filepath.Join(verifRoot, "harness"), pkgPath)
+func prepareOverlay(harnessRoot, repo, pkgPath, buildDir string) (map[string][]byte, map[string]string, error) {
+	ov, repl, err := buildOverlay(repo, harnessRoot, pkgPath)
 	if err != nil {
 		return nil, nil, err
 	}
@@ -717,7 +784,7 @@ func runBatch(bin, buildDir string, batch []replayItem) ([]replayResult, error) 
 	return res, nil
 }
 
-func writeReplay(id, rid, harness string, f FailRec, params map[string]int, r replayResult, repo string) string {
+func writeReplay(id, check, rid, harness string, f FailRec, params map[string]int, r replayResult, repo string) string {
 	dir := filepath.Join(verifRoot, "replays", id)
 	os.MkdirAll(dir, 0o755)
 	p := filepath.Join(dir, rid+".json")
@@ -726,7 +793,7 @@ func writeReplay(id, rid, harness string, f FailRec, params map[string]int, r re
 		commit = strings.TrimSpace(string(out))
 	}
 	doc := map[string]interface{}{
-		"property": id, "harness": harness, "message": f.Msg, "kind": f.Kind, "vector": f.Vector, "inputs": f.Named, "engine_observations": f.Observes, "params": params,
+		"property": id, "check": check, "harness": harness, "message": f.Msg, "kind": f.Kind, "vector": f.Vector, "inputs": f.Named, "engine_observations": f.Observes, "params": params,
 		"native_outcome": r.Outcome, "native_message": r.Msg, "native_observations": r.Observes, "repo_commit": commit,
 	}
 	b, _ := json.MarshalIndent(doc, "", " ")
@@ -742,6 +809,7 @@ func runReplayFile(path string) int {
 	}
 	var doc struct {
 		Property string         `json:"property"`
+		Check    string         `json:"check"`
 		Harness  string         `json:"harness"`
 		Vector   []string       `json:"vector"`
 		Params   map[string]int `json:"params"`
@@ -751,7 +819,10 @@ func runReplayFile(path string) int {
 		fmt.Fprintln(os.Stderr, err)
 		return 2
 	}
-	cfgB, err := os.ReadFile(filepath.Join(verifRoot, "checks", doc.Property+".json"))
+	if doc.Check == "" {
+		doc.Check = doc.Property
+	}
+	cfgB, err := os.ReadFile(filepath.Join(verifRoot, "checks", doc.Check+".json"))
 	if err != nil {
 		fmt.Fprintln(os.Stderr, err)
 		return 2
@@ -759,9 +830,17 @@ func runReplayFile(path string) int {
 	var cfg CheckCfg
 	json.Unmarshal(cfgB, &cfg)
 	repo := envOr("VERIF_REPO", "/repo")
-	buildDir := filepath.Join(verifRoot, ".build", doc.Property)
+	buildDir := filepath.Join(verifRoot, ".build", doc.Check)
 	os.MkdirAll(buildDir, 0o755)
-	_, repl, err := prepareOverlay(repo, cfg.Package, buildDir)
+	if cfg.Gen != nil {
+		g, err := prepareGen(cfg, repo, buildDir)
+		if err != nil {
+			fmt.Fprintln(os.Stderr, "gen:", err)
+			return 2
+		}
+		repo = g
+	}
+	_, repl, err := prepareOverlay(cfg.harnessRoot(), repo, cfg.Package, buildDir)
 	if err != nil {
 		fmt.Fprintln(os.Stderr, err)
 		return 2
